@@ -520,7 +520,63 @@ def variable_composite_section(ctx):
                 break
 
 
+def sparse_ufo_master_section(ctx):
+    """a designspace whose middle source is a separate SPARSE UFO (a font of its own, not a layer) that holds only a composite
+    -- its bases are absent from it -- with component offsets that are NOT on the line between the outer masters: the composite
+    keeps its references in that master (placeholders stand in for the bases), and the variable font instantiated at that
+    master's location places the components where that master says"""
+    import ufo2ft
+    from harness import dsgen
+    from fontTools.ttLib import TTFont
+    from fontTools.varLib import instancer
+    rng = ctx.subrng("sparse-ufo-master")
+    sq = lambda x, y, d: [[(Fr(x), Fr(y), "line"), (Fr(x + d), Fr(y), "line"), (Fr(x + d), Fr(y + d), "line"), (Fr(x), Fr(y + d), "line")]]
+    one = (Fr(1), Fr(0), Fr(0), Fr(1))
+    for i in range(ctx.budget(4, 12)):
+        lib = ["ufoLib2", "defcon"][i % 2]
+        fn = ["compileVariableTTF", "compileInterpolatableTTFsFromDS"][(i // 2) % 2]
+        off = [(Fr(100), Fr(550)), (Fr(300), Fr(640)), (Fr(200), Fr(600))]      # Regular, Medium (off the line), Bold
+        def full(k, o):
+            d = 40 * k
+            return {"glyphs": [{"name": "a", "unicodes": [0x61], "width": Fr(500 + d), "contours": sq(50, 0, 300 + d), "components": [], "anchors": []},
+                               {"name": "acutecomb", "unicodes": [0x301], "width": Fr(0), "contours": sq(-40, 0, 80 + d // 2), "components": [], "anchors": []},
+                               {"name": "aacute", "unicodes": [0xE1], "width": Fr(500 + d), "contours": [], "anchors": [],
+                                "components": [("a", one + (Fr(0), Fr(0))), ("acutecomb", one + o)]}],
+                    "glyphOrder": ["a", "acutecomb", "aacute"], "kerning": {}, "groups": {}, "lib": {}, "features": "",
+                    "info": {"familyName": "Fam", "styleName": "M%d" % k, "unitsPerEm": 1000, "ascender": 800, "descender": -200}}
+        sparse = {"glyphs": [{"name": "aacute", "unicodes": [0xE1], "width": Fr(520), "contours": [], "anchors": [],
+                              "components": [("a", one + (Fr(0), Fr(0))), ("acutecomb", one + off[1])]}],
+                  "glyphOrder": ["aacute"], "kerning": {}, "groups": {}, "lib": {}, "features": "",
+                  "info": {"familyName": "Fam", "styleName": "Sparse", "unitsPerEm": 1000, "ascender": 800, "descender": -200}}
+        masters = [full(0, off[0]), sparse, full(2, off[2])]
+        case = {"function": fn, "lib": lib, "masters": [jsonable(m) for m in masters], "sparse_master": 1}
+        ctx.count(); ctx.klass("sparse UFO master holding only a composite: %s" % fn); ctx.nontriv(("sum", i, ctx.scale))
+        try:
+            ds, fonts = dsgen.make_designspace(rng, masters, lib, instances=False)
+            if fn == "compileVariableTTF":
+                vf = ufo2ft.compileVariableTTF(ds, useProductionNames=False)
+                b = io.BytesIO(); vf.save(b)
+                got = []
+                for wght in (100, 500, 900):
+                    inst = instancer.instantiateVariableFont(TTFont(io.BytesIO(b.getvalue())), {"wght": wght})
+                    g = inst["glyf"]["aacute"]
+                    got.append([(c.glyphName, c.x, c.y) for c in g.components] if g.isComposite() else None)
+            else:
+                res = ufo2ft.compileInterpolatableTTFsFromDS(ds, useProductionNames=False)
+                got = []
+                for sd in res.sources:
+                    g = sd.font["glyf"]["aacute"]
+                    got.append([(c.glyphName, c.x, c.y) for c in g.components] if g.isComposite() else None)
+        except Exception as e:
+            ctx.spec_failure(case, "%s raised %s: %s\n%s" % (fn, type(e).__name__, e, traceback.format_exc()[-1000:]))
+            continue
+        want = [[("a", 0, 0), ("acutecomb", int(o[0]), int(o[1]))] for o in off]
+        if got != want:
+            ctx.spec_failure(dict(case, components_of_aacute=got), "the components of 'aacute' at the three masters' locations are %r; the sources say %r" % (got, want))
+
+
 def cubic_distance_test(ctx, rng):
+    sparse_ufo_master_section(ctx)
     skip_flatten_test(ctx, rng)
     unrounded_distance_test(ctx, rng)
     variable_composite_section(ctx)
